@@ -63,8 +63,12 @@ class InternalCompiler(Compiler):
             self.expqmap[sym] = iret
             qc.map_qubit(sym, iret, promote=True)
 
-            # 2.3 Remove all the temp qubits
-            self.expqmap.remove(qc.uncompute())
+            # 2.3 Remove all the temp qubits, if the qubit computed from them is kept to the
+            # end; one that uncompute_all will uncompute needs them as they are until then
+            if not uncompute or returns is None or sym.name in returns.bitvec:
+                self.expqmap.remove(qc.uncompute())
+            else:
+                qc.keep_ancillas()
 
         # 3. Remove identities gates (ie: X - X)
         qc.remove_identities()
